@@ -1,6 +1,6 @@
 (* C06 - publish only after durable; remove only after the replacement is durable.  Statements only. *)
 From Coq Require Import List ZArith NArith.
-From DOS Require Import Generated Base Store StoreProofs StoreLemmas Programs ProgramsProofs PackProofs MaintProofs RepackProofs AddPackProofs.
+From DOS Require Import Generated Base Store StoreProofs StoreLemmas Programs ProgramsProofs PackProofs MaintProofs RepackProofs AddPackProofs ImportProofs.
 Import ListNotations.
 
 Section C06.
@@ -71,6 +71,12 @@ Proof.
   intros w l id objs nh twice m A P B C.
   destruct (add_to_pack_crash_safe H inflate H_inj w l id objs nh twice true m A B C) as (_ & _ & Z). exact (Z eq_refl P).
 Qed.
+(* import_objects with do_fsync on every batch: power loss at any point of the transfer *)
+Theorem C06_import_power_safe : forall w l bs nh twice m,
+  Inv H inflate w -> Inv H inflate (power_loss w) -> pending l = [] -> Forall (fun b => Forall (aobj_ok H inflate) (snd b)) bs ->
+  let w' := power_loss (crash (run_events (w, l) (firstn m (p_import w nh twice true bs)))) in
+  Inv H inflate w' /\ (forall k c, stored inflate (power_loss w) k = Some c -> stored inflate w' k = Some c).
+Proof. intros w l bs nh twice m HI P Hp Ho. destruct (import_crash_safe H inflate H_inj w l bs nh twice true m HI Hp Ho) as (_ & _ & C). exact (C eq_refl P). Qed.
 End C06.
 
 (* (3) the defaults the property speaks of, from the AST of the current source: packing syncs by default *)
@@ -84,3 +90,4 @@ Print Assumptions C06_clean_power_safe.
 Print Assumptions C06_repack_power_safe.
 Print Assumptions C06_add_to_pack_power_safe.
 Print Assumptions C06_default_fsync_settings.
+Print Assumptions C06_import_power_safe.
